@@ -157,8 +157,12 @@ func loadPlan(path string) (string, bool, []op) {
 
 // seeded histories: larger key/value domains, longer runs, back-logs the small TLC constants cannot
 // reach.  Styles: 0 calm (single-event responses, watch registered right after the read, no deletes
-// while no watch is up, consumer drains before stopping), 1 wild, 2 back-log then stop.
+// while no watch is up, consumer drains before stopping), 1 wild, 2 back-log then stop, 3 sessions
+// lost and re-established with writes in the gaps (single-event responses, consumer keeps up).
 func genHistory(rng *rand.Rand, style int) (string, bool, []op) {
+	if style == 3 {
+		return genReconnect(rng)
+	}
 	mode := []string{"dir", "watcher"}[rng.Intn(2)]
 	if style == 2 {
 		mode = "watcher"
@@ -243,4 +247,52 @@ func listPlans(dir string) []string {
 		return fs[i] < fs[j]
 	})
 	return fs
+}
+
+func genReconnect(rng *rand.Rand) (string, bool, []op) {
+	ign := rng.Intn(3) > 0
+	nk, nv := 1+rng.Intn(4), 1+rng.Intn(3)
+	var ops []op
+	wr := func(pdel int) op {
+		if rng.Intn(100) < pdel {
+			return op{Op: "write", T: "del", K: 1 + rng.Intn(nk), V: 0}
+		}
+		return op{Op: "write", T: "put", K: 1 + rng.Intn(nk), V: 1 + rng.Intn(nv)}
+	}
+	for i := rng.Intn(4); i > 0; i-- {
+		ops = append(ops, wr(10))
+	}
+	ops = append(ops, op{Op: "start"})
+	for s := 1 + rng.Intn(3); s > 0; s-- {
+		for i := rng.Intn(3); i > 0; i-- { // reads that fail before one succeeds
+			if rng.Intn(3) == 0 {
+				ops = append(ops, op{Op: "serveget", Ok: false})
+			}
+		}
+		ops = append(ops, op{Op: "serveget", Ok: true}, op{Op: "servewatch"}, op{Op: "drain"})
+		for i := rng.Intn(5); i > 0; i-- {
+			ops = append(ops, wr(30))
+			if rng.Intn(3) > 0 {
+				ops = append(ops, op{Op: "flushall"})
+			}
+			if rng.Intn(2) == 0 {
+				ops = append(ops, op{Op: "drain"})
+			}
+		}
+		if rng.Intn(2) == 0 {
+			ops = append(ops, op{Op: "flushall"}, op{Op: "drain"})
+		}
+		ops = append(ops, op{Op: "kill", Why: []string{"compact", "noleader", "closed"}[rng.Intn(3)]})
+		if rng.Intn(2) == 0 {
+			ops = append(ops, op{Op: "drain"})
+		}
+		for i := rng.Intn(4); i > 0; i-- { // the gap
+			ops = append(ops, wr(50))
+		}
+	}
+	ops = append(ops, op{Op: "serveget", Ok: true}, op{Op: "servewatch"}, op{Op: "drain"})
+	for i := rng.Intn(3); i > 0; i-- {
+		ops = append(ops, wr(30), op{Op: "flushall"}, op{Op: "drain"})
+	}
+	return "watcher", ign, ops
 }
